@@ -1,6 +1,7 @@
 import AcmedVerif.Props.C04Bind
 open AcmedVerif.Props.C04Bind
 #print axioms url_is_post_url
+#print axioms url_is_post_url_old_key_probe
 #print axioms url_is_post_url_attempt
 #print axioms url_is_post_url_http
 #print axioms site_url_table
